@@ -83,8 +83,11 @@ PROFILES = {
     'aggressive': dict(fold=1, call=4, raise_=8, sizes=(1, 6, 2, 2), complete=4),
     'folder':     dict(fold=8, call=5, raise_=2, sizes=(3, 2, 1, 2), complete=1),
     'shover':     dict(fold=2, call=6, raise_=8, sizes=(0, 1, 0, 0), complete=4),
+    # all-in laboratory: short stacks move in, deep stacks mostly call and sometimes min-raise, so that chains of
+    # (full raise / all-in exactly a min-raise / short all-ins) facing callers who keep chips arise in one round
+    'allin_lab':  dict(fold=1, call=6, raise_=4, sizes=(1, 0, 0, 0), complete=2),
 }
-PROFILE_NAMES = tuple(PROFILES)
+PROFILE_NAMES = tuple(k for k in PROFILES if k != 'allin_lab')      # the laboratory profile is opted into by a check
 
 
 def cap_runouts(state):
@@ -205,6 +208,25 @@ class World:
         pool = list(st.get_dealable_cards(k))
         pool.sort(key=repr)          # content order, independent of deck order
         out = []
+        if mode == 'reserve':
+            # "not recommended" but legal (a warning, not a refusal): the dealer names cards that lie in the muck or the
+            # discard piles (also the burn pile, except for a burn) although the undealt deck would cover the deal -
+            # as when a live hand is transcribed whose dealer reshuffled
+            piles = [c for c in st.mucked_cards if c] + [c for d in st.discarded_cards for c in d if c]
+            if kind != 'burn':
+                piles += [c for c in st.burn_cards if c]
+            piles = sorted(set(piles) - set(pool), key=repr)
+            for j in range(k):
+                src = piles if piles and self.ch.chance('dealer.reserve', 1, 2) else pool
+                if not src:
+                    src = pool or piles
+                if not src:
+                    return k
+                c = src.pop(self.ch.pick('dealer.card', len(src)))
+                out.append(c)
+                if src is piles:
+                    self.ctx.fault('reserve_card_named')
+            return cards_str(out)
         for _ in range(k):
             if not pool:
                 return k
@@ -311,6 +333,24 @@ class World:
                 self.raise_(s)
             else:
                 self.apply('post_bring_in')
+        elif ph == 'bet' and self.profile_name == 'allin_lab':
+            i = s.actor_index
+            short = s.stacks[i] + s.bets[i] <= 6 * self.cfg['bb'] * self.unit
+            can_raise = s.can_complete_bet_or_raise_to()
+            if short:
+                k = ch.weighted('lab.short', (1, 6 if can_raise else 0))          # 0 call, 1 move all-in
+                if k == 1:
+                    self.apply('complete_bet_or_raise_to', s.max_completion_betting_or_raising_to_amount)
+                else:
+                    self.apply('check_or_call')
+            else:
+                k = ch.weighted('lab.deep', (10, 3 if can_raise else 0, 1 if s.can_fold() else 0))   # call, min-raise, fold
+                if k == 0:
+                    self.apply('check_or_call')
+                elif k == 1:
+                    self.apply('complete_bet_or_raise_to', s.min_completion_betting_or_raising_to_amount)
+                else:
+                    self.apply('fold')
         elif ph == 'bet':
             p = self.profile
             w = [p['fold'] if s.can_fold() else 0, p['call'],
